@@ -17,19 +17,47 @@ fn beq(a: f32, b: f32) -> bool {
 
 // ---------------------------------------------------------------- rect
 
-fn eval_rect(x: f32, y: f32, w: f32, h: f32, prefix: bool) -> Result<u64, Violation> {
-    let case = format!("kind=rect x={:?} y={:?} w={:?} h={:?} prefix={}", x, y, w, h, prefix as i32);
-    let path = guard(|| {
+/// `prefix`: what the builder holds when rect() is called. 0 nothing; 1 an open subpath elsewhere;
+/// 2 an open subpath whose last LineTo ends exactly on the rectangle's first corner; 3 the same
+/// with a QuadTo; 4 a lone MoveTo to that corner; 5 a closed subpath that started on that corner
+fn eval_rect(x: f32, y: f32, w: f32, h: f32, prefix: u8) -> Result<u64, Violation> {
+    let case = format!("kind=rect x={:?} y={:?} w={:?} h={:?} prefix={}", x, y, w, h, prefix);
+    let (path, skip) = guard(|| {
         let mut pb = PathBuilder::new();
-        if prefix {
-            pb.move_to(9., 9.);
-            pb.line_to(8., 7.);
-        }
+        let skip = match prefix {
+            0 => 0,
+            1 => {
+                pb.move_to(9., 9.);
+                pb.line_to(8., 7.);
+                2
+            }
+            2 => {
+                pb.move_to(9., 9.);
+                pb.line_to(x, y);
+                2
+            }
+            3 => {
+                pb.move_to(9., 9.);
+                pb.quad_to(8., 7., x, y);
+                2
+            }
+            4 => {
+                pb.move_to(x, y);
+                1
+            }
+            _ => {
+                pb.move_to(x, y);
+                pb.line_to(8., 7.);
+                pb.line_to(9., 9.);
+                pb.close();
+                4
+            }
+        };
         pb.rect(x, y, w, h);
-        pb.finish()
+        (pb.finish(), skip)
     })
     .map_err(|e| Violation::new("rect/panic", case.clone(), e))?;
-    let ops = &path.ops[if prefix { 2 } else { 0 }..];
+    let ops = &path.ops[skip.min(path.ops.len())..];
     let want = [(x, y), (x + w, y), (x + w, y + h), (x, y + h)];
     let ok = ops.len() == 5
         && matches!(ops[0], PathOp::MoveTo(p) if beq(p.x, want[0].0) && beq(p.y, want[0].1))
@@ -228,13 +256,13 @@ impl Check for C20 {
         // rect
         let xs = [-3.0f32, 0., 2.5];
         let ws = [-2.0f32, 0., 1., 7.5];
-        run.bound("rect", format!("{} rect parameter tuples x with/without a preceding subpath", xs.len() * xs.len() * ws.len() * ws.len()));
+        run.bound("rect", format!("{} rect parameter tuples x 6 builder contexts (empty, open subpath elsewhere, LineTo / QuadTo ending on the first corner, MoveTo to it, closed subpath that started on it)", xs.len() * xs.len() * ws.len() * ws.len()));
         run.seq(|l| {
             for &x in &xs {
                 for &y in &xs {
                     for &w in &ws {
                         for &h in &ws {
-                            for prefix in [false, true] {
+                            for prefix in 0u8..6 {
                                 l.states += 1;
                                 l.transitions += 1;
                                 l.traces += 1;
@@ -345,6 +373,12 @@ impl Check for C20 {
             [1e6, 3e-7, -3e-7, 1e6, 0., 0.],
             [1., 1e-6, -1e-6, 1., 1e-7, -1e-7],
             [2., 0., 9e-7, 0.5, 3., 4.],
+            // one entry away from the identity
+            [1., 0., 0., 1., 0., 3.5],
+            [1., 0., 0., 1., -2.25, 0.],
+            [1., 0., 0., 1.5, 0., 0.],
+            [-1., 0., 0., 1., 0., 0.],
+            [1., 0., 0., 1., 0., 1e-30],
         ];
         let scales = [1.0f32, 4e6, 1e-6];
         run.bound("transform with extreme coefficients", format!("all op strings of length 1..=2 over {} ops with coordinates x {:?} x {} transforms with entries down to 1e-9", alpha.len(), scales, xfs2.len()));
@@ -384,7 +418,7 @@ impl Check for C20 {
     fn replay(&self, case: &str) -> Result<Option<Violation>, String> {
         let m = kv(case);
         match kv_s(&m, "kind")? {
-            "rect" => Ok(eval_rect(pf(&m, "x")?, pf(&m, "y")?, pf(&m, "w")?, pf(&m, "h")?, kv_i(&m, "prefix")? != 0).err()),
+            "rect" => Ok(eval_rect(pf(&m, "x")?, pf(&m, "y")?, pf(&m, "w")?, pf(&m, "h")?, kv_i(&m, "prefix")? as u8).err()),
             "arc" => Ok(eval_arc(pf(&m, "cx")?, pf(&m, "cy")?, pf(&m, "r")?, pf(&m, "start")?, pf(&m, "sweep")?, kv_i(&m, "cur")? as u8).err()),
             "transform" => {
                 let xv: Vec<f32> = kv_s(&m, "xf")?.split(',').map(|t| t.parse::<f32>().map_err(|e| e.to_string())).collect::<Result<_, _>>()?;
